@@ -417,6 +417,24 @@ class Checker:
 
             def sim_th():
                 return self.biogeme(sc, rows, th).simulate(dict(sc['theta']))
+
+            def history():
+                # one object: likelihood, then simulate, then the likelihood again (the engine keeps ONE thread counter and the row
+                # blocks of the likelihood laid out at construction: a simulation must leave the likelihood entry points alone)
+                b = self.biogeme(sc, rows, th)
+                before = b.calculate_likelihood(sc['x'], scaled=False)
+                b.simulate(dict(sc['theta']))
+                out2 = b.calculate_likelihood_and_derivatives(sc['x'], scaled=False, hessian=True, bhhh=True)
+                return before, b.calculate_likelihood(sc['x'], scaled=False), out2
+            hs = self.guarded('history', sc, history, {'threads': th, 'history': 'likelihood; simulate; likelihood'})
+            if hs is not None:
+                self.cases += 1
+                after = (float(hs[2].function), np.array(hs[2].gradient, dtype=float), np.array(hs[2].hessian, dtype=float),
+                         np.array(hs[2].bhhh, dtype=float))
+                if not (self.close(hs[0], whole[0], scales[0]) and self.close(hs[1], whole[0], scales[0])):
+                    self.fail('history', sc, whole[0], [float(hs[0]), float(hs[1])], {'threads': th, 'history': 'likelihood; simulate; likelihood'})
+                else:
+                    self.same('history', sc, after, whole, scales, {'threads': th, 'history': 'likelihood; simulate; likelihood and derivatives'})
             st = self.guarded('threads', sc, sim_th, {'threads': th, 'through': 'simulate'})
             if st is not None:
                 self.cases += 1
